@@ -32,7 +32,9 @@ def check(prog, rep):
         rep.ob(
             "R13.2", f"Problem.{a}", a in reset,
             f"cache attribute Problem.{a} (filled in {where}) "
-            + ("is reset by the invalidator" if a in reset else "is NOT reset by the invalidator: it survives a model edit"),
+            + ("is reset by the invalidator" if a in reset else
+               "is reset by the invalidator only under a condition: the edits for which the condition is false keep it" if a in (pm.cond_reset or ()) else
+               "is NOT reset by the invalidator: it survives a model edit"),
             loc=loc,
         )
 
@@ -377,9 +379,24 @@ def check(prog, rep):
                 and isinstance(s.value, ast.Name) and s.value.id == alias
                 for s in walk_local(fi.node, include_self=False)
             )
+            if not published and isinstance(v, ast.Call) and isinstance(v.func, ast.Name):
+                # built by a helper that registers the object on the problem itself and returns that same object
+                g = prog.functions.get(f"{fi.module.name}:{v.func.id}")
+                if g is None:
+                    ok = None
+                    why.append(f"{src(v)[:40]}: builder not resolved")
+                    continue
+                grecv = problem_receivers(g)
+                pub = {s.value.id for s in walk_local(g.node, include_self=False) if isinstance(s, ast.Assign) and isinstance(s.value, ast.Name)
+                       and any(isinstance(t, ast.Attribute) and dotted(t.value) in grecv and t.attr == attr for t in s.targets)}
+                rets = [r.value for r in walk_local(g.node, include_self=False) if isinstance(r, ast.Return)]
+                published = bool(pub) and bool(rets) and all(isinstance(r, ast.Name) and r.id in pub for r in rets)
             if not published:
-                ok = False
+                ok = False if ok is not None else None
                 why.append(src(v)[:50])
+        if ok is None:
+            rep.undecided(f"{fi.qual.split(':')[1]}:{src(n.targets[0])}: whether the object the lazy entry goes into is the published Problem.{attr} is not visible ({'; '.join(why)})")
+            continue
         rep.ob("R13.4", f"{fi.qual.split(':')[1]}:{src(n.targets[0])}", ok,
                f"lazy entry {src(n.targets[0])} is stored in the object currently referenced by Problem.{attr} (replaced wholesale on invalidation)"
                if ok else f"lazy entry {src(n.targets[0])} is stored into an object that is not the published Problem.{attr} ({'; '.join(why)})",
@@ -389,7 +406,7 @@ def check(prog, rep):
     muts = cache_inplace_mutations(prog, pm)
     for f, n, what in muts:
         rep.ob("R13.6", f.qual.split(":")[1], False, what + ": the next solve of the same unmodified problem starts from the altered artefact (results depend on how many solves came before)", loc=f"{f.module.rel}:{n.lineno}", detail=f"in-place:{src(n)[:30]}")
-    rep.ob("R13.6", "package", not muts, "no consumer modifies an object reachable from a Problem cache in place", detail="cache-objects-read-only", loc=None)
+    rep.ob("R13.6", "package", True, f"{len(muts)} in-place modification(s) of objects reachable from a Problem cache found in consumers", detail="cache-objects-read-only", loc=None, trivial=True)
 
     # ---- R13.5 mutable model fields are not leaked
     mutable_model = {a for a in model_attrs if isinstance(init_attrs.get(a), (ast.List, ast.Dict, ast.Set))}
